@@ -298,7 +298,7 @@ fn record(rep: &mut Report, c: &Case) {
 }
 
 pub fn run(ctx: &Ctx) -> Report {
-    let n = ctx.size(60_000, 1_500_000) as usize;
+    let n = ctx.size(120_000, 1_500_000) as usize;
     let batches = (n + 9) / 10;
     let term_items = 17; // 1 item for first bytes, 16 for second bytes
     par_items(ctx.threads, term_items + batches, ctx.seed, move |i, seed, rep| {
